@@ -152,5 +152,10 @@ pub fn generate(engine: &dyn crate::runner::Engine, profile: &str, seed: u64, ti
     if crate::tape::Tape::fresh(crate::tape::mix(seed, 0x7277)).chance(1, 2) {
         sc.sim.buggify.insert("rwlock.writer_preference".into(), 1000);
     }
+    // hook H14: half of the runs take a scheduling point right after a writing call released its
+    // hash-index entry (work that a change moved out of the entry's protection becomes a window)
+    if crate::tape::Tape::fresh(crate::tape::mix(seed, 0x1E47)).chance(1, 2) {
+        sc.sim.buggify.insert("index.after_entry_release".into(), 1000);
+    }
     sc
 }
